@@ -68,6 +68,7 @@ static struct {
 typedef struct { int writer; int readers; int rd[NSIM_MAXSLOTS]; } hshadow_t;
 static hshadow_t HS[MAXMU];
 static int m_var[MAXVAR];
+static int my_thread[NSIM_MAXSLOTS];    /* scenario thread index of each fibre */
 static int thread_tid[MAXT];          /* fibre id of each scenario thread, -1 if not started */
 static int thread_done[MAXT];
 static int thread_op[MAXT];           /* index of the op being executed */
@@ -83,6 +84,10 @@ static struct {
 	int64_t first_true_obs_return;/* step at which an observation "notified" first returned, -1 */
 	int users;                    /* threads still going to use this note (C09) */
 	int late_child;               /* created while an ancestor might already be notified */
+	int64_t expiry_want;          /* minimum deadline on the creation-time chain, -1 none */
+	int born_expired;             /* its own deadline had already passed when it was created */
+	/* causes inherited from ancestors that have been freed since (adoption keeps them relevant) */
+	int64_t inh_invoked, inh_returned, inh_dl;
 } NM[MAXNOTE];
 static int64_t hstep;                 /* harness event counter for invoke/return stamps */
 
@@ -136,8 +141,9 @@ static void check_held (const char *prop, const char *what, int mi, int writer) 
 static int note_cause_exists (int n, int64_t now) {      /* soundness: may n be notified now? */
 	int a;
 	for (a = n; a >= 0; a = NM[a].parent) {
-		if (NM[a].notify_invoked >= 0) return 1;
+		if (NM[a].notify_invoked >= 0 || NM[a].inh_invoked >= 0) return 1;
 		if (NM[a].dl_ns >= 0 && NM[a].dl_ns <= now) return 1;
+		if (NM[a].inh_dl >= 0 && NM[a].inh_dl <= now) return 1;
 	}
 	return 0;
 }
@@ -148,8 +154,9 @@ static int note_must_be_notified (int n, int64_t now_at_invoke) {   /* completen
 		if (NM[a].notifies_in_flight > 0) return 0;          /* something still in progress on the chain */
 	}
 	for (a = n; a >= 0; a = NM[a].parent) {
-		if (NM[a].notify_returned >= 0) must = 1;
+		if (NM[a].notify_returned >= 0 || NM[a].inh_returned >= 0) must = 1;
 		if (NM[a].dl_ns >= 0 && NM[a].dl_ns <= now_at_invoke) must = 1;
+		if (NM[a].inh_dl >= 0 && NM[a].inh_dl <= now_at_invoke) must = 1;
 	}
 	return must;
 }
@@ -381,11 +388,12 @@ static void op_cv_await (op_t *o) {
 	do_release (mi, !reader, 0);
 }
 
-static int64_t cv_signals_invoked[MAXCV];
+static int64_t cv_signals_invoked[MAXCV], cv_signals_returned[MAXCV];
 static void do_signal (int ci, int bcast) {
 	cv_signals_invoked[ci]++;
 	if (bcast) { nsim_op_begin ("nsync_cv_broadcast"); nsync_cv_broadcast (W.cv[ci]); }
 	else { nsim_op_begin ("nsync_cv_signal"); nsync_cv_signal (W.cv[ci]); }
+	cv_signals_returned[ci]++;
 	nsim_op_end ();
 }
 static void op_signal (op_t *o) {
@@ -444,13 +452,20 @@ static void op_mu_wait (op_t *o) {
 	do_release (mi, !reader, 0);
 }
 
+static int note_notify_ops (int n) {
+	int t, j, c = 0;
+	for (t = 0; t < S.nthreads; t++) for (j = 0; j < S.nops[t]; j++) if (S.ops[t][j].kind == OP_NOTIFY && S.ops[t][j].a[0] == n) c++;
+	return c;
+}
 static void op_notify (op_t *o) {
 	int n = o->a[0];
 	if (!wait_created (n)) return;
 	if (NM[n].notify_invoked < 0) NM[n].notify_invoked = ++hstep;
 	NM[n].notifies_in_flight++;
-	client_wr (&W.payload[n]);
-	W.payload[n]++;
+	if (note_notify_ops (n) == 1) {         /* a payload only when its writer is unique */
+		client_wr (&W.payload[n]);
+		W.payload[n]++;
+	}
 	nsim_op_begin ("nsync_note_notify");
 	nsync_note_notify (W.note[n]);
 	nsim_op_end ();
@@ -471,7 +486,7 @@ static void op_notify (op_t *o) {
    no finite deadline and exactly one chain member is ever explicitly notified in this scenario. */
 static int note_single_cause (int n) {
 	int a, t, j, cause = -1, ncauses = 0;
-	for (a = n; a >= 0; a = NM[a].parent) {
+	for (a = n; a >= 0; a = S.note_parent[a]) {      /* the creation-time chain, not the one after adoptions */
 		int notified_here = 0;
 		if (S.note_dl[a] != DL_NONE) return -1;
 		for (t = 0; t < S.nthreads; t++) for (j = 0; j < S.nops[t]; j++) {
@@ -530,7 +545,10 @@ static void op_note_wait (op_t *o) {
 static int64_t note_chain_min_dl (int n) {
 	int a;
 	int64_t best = -1;
-	for (a = n; a >= 0; a = NM[a].parent) if (NM[a].dl_ns >= 0 && (best < 0 || NM[a].dl_ns < best)) best = NM[a].dl_ns;
+	for (a = n; a >= 0; a = NM[a].parent) {
+		if (NM[a].dl_ns >= 0 && (best < 0 || NM[a].dl_ns < best)) best = NM[a].dl_ns;
+		if (NM[a].inh_dl >= 0 && (best < 0 || NM[a].inh_dl < best)) best = NM[a].inh_dl;
+	}
 	return best;
 }
 
@@ -547,9 +565,13 @@ static void create_note (int n) {
 	NM[n].parent = p;
 	NM[n].dl_ns = dl_ns;
 	NM[n].late_child = 0;
+	NM[n].born_expired = (dl_ns >= 0 && dl_ns <= nsim_now_ns () + 1000000);
+	NM[n].inh_invoked = -1; NM[n].inh_returned = -1; NM[n].inh_dl = -1;
 	for (a = p; a >= 0; a = NM[a].parent) {
-		if (NM[a].notify_invoked >= 0 || (NM[a].dl_ns >= 0 && NM[a].dl_ns <= nsim_now_ns () + 1000000)) NM[n].late_child = 1;
+		if (NM[a].notify_invoked >= 0 || NM[a].inh_invoked >= 0 || (NM[a].dl_ns >= 0 && NM[a].dl_ns <= nsim_now_ns () + 1000000) ||
+		    (NM[a].inh_dl >= 0 && NM[a].inh_dl <= nsim_now_ns () + 1000000)) NM[n].late_child = 1;
 	}
+	NM[n].expiry_want = note_chain_min_dl (n);
 	nsim_op_begin ("nsync_note_new");
 	W.note[n] = nsync_note_new (parent, dl_time (dl_ns));
 	nsim_op_end ();
@@ -562,6 +584,8 @@ static void create_note (int n) {
 	}
 	if (W.note[n] == NULL) VIOL ("C19", "ctor-null", "nsync_note_new returned NULL although no allocation failed");
 	last_alloc_failed = 0;
+	/* an ancestor's notification may have started while the constructor ran */
+	for (a = p; a >= 0; a = NM[a].parent) if (NM[a].notify_invoked >= 0 || NM[a].inh_invoked >= 0) NM[n].late_child = 1;
 	/* a child created after an ancestor was (or may have been) notified is not linked and, by
 	   note.c, has expiry "zero" semantics: treat as notified-at-creation in the model */
 	for (a = p; a >= 0; a = NM[a].parent) {
@@ -592,7 +616,17 @@ static void op_note_free (op_t *o) {
 	NM[n].freed = 1;
 	nsim_probe (PR_NOTE_FREED);
 	/* adoption in the model: children of n now hang off n's parent */
-	for (c = 0; c < S.nnote; c++) if (NM[c].created && !NM[c].freed && NM[c].parent == n) NM[c].parent = NM[n].parent;
+	for (c = 0; c < S.nnote; c++) if (NM[c].created == 1 && !NM[c].freed && NM[c].parent == n) {
+		/* what could notify n can have reached (or, once returned, must have reached) its children */
+		int64_t iv = NM[n].notify_invoked >= 0 ? NM[n].notify_invoked : NM[n].inh_invoked;
+		int64_t rt = NM[n].notify_returned >= 0 ? NM[n].notify_returned : NM[n].inh_returned;
+		int64_t dl = NM[n].dl_ns;
+		if (NM[n].inh_dl >= 0 && (dl < 0 || NM[n].inh_dl < dl)) dl = NM[n].inh_dl;
+		if (iv >= 0 && NM[c].inh_invoked < 0) NM[c].inh_invoked = iv;
+		if (rt >= 0 && NM[c].inh_returned < 0) NM[c].inh_returned = rt;
+		if (dl >= 0 && (NM[c].inh_dl < 0 || dl < NM[c].inh_dl)) NM[c].inh_dl = dl;
+		NM[c].parent = NM[n].parent;
+	}
 }
 /* a thread finished its last op on note n */
 static void note_user_done (int n) {
@@ -608,7 +642,8 @@ static void op_note_expiry (op_t *o) {
 	nsim_op_begin ("nsync_note_expiry");
 	e = nsync_note_expiry (W.note[n]);
 	nsim_op_end ();
-	want = note_chain_min_dl (n);
+	want = NM[n].expiry_want;
+	if (NM[n].born_expired && NM[n].dl_ns >= 0 && nsync_time_cmp (e, time_from_ns (NM[n].dl_ns)) == 0) return;   /* born notified: own deadline reported */
 	if (want < 0) {
 		if (nsync_time_cmp (e, nsync_time_no_deadline) != 0 && !(NM[n].late_child && nsync_time_cmp (e, nsync_time_zero) == 0)) {
 			VIOL ("C08", "expiry", "nsync_note_expiry(%d) is not no_deadline although no deadline exists on its chain", n);
@@ -782,6 +817,8 @@ static int op_note_used (const op_t *o, int which) {
 static void thread_body (void *arg) {
 	int t = (int) (intptr_t) arg;
 	int j, w;
+	my_thread[nsim_self ()] = t;
+	thread_tid[t] = nsim_self ();
 	for (j = 0; j < S.nops[t]; j++) {
 		thread_op[t] = j;
 		if (S.family == FAM_GRID && t == 1 && S.ops[t][j].kind != OP_YIELD) grid_event_done = 1;
@@ -802,6 +839,7 @@ static void thread_body (void *arg) {
 
 /* ------------------------------------------------------------------------------------------ */
 /* world setup */
+static void harness_state_reset (void);
 static void world_init (void) {
 	int i, t, j, w;
 	memset (&W, 0, sizeof W);
@@ -812,7 +850,9 @@ static void world_init (void) {
 	memset (OM, 0, sizeof OM);
 	memset (nCH, 0, sizeof nCH);
 	memset (cv_signals_invoked, 0, sizeof cv_signals_invoked);
+	memset (cv_signals_returned, 0, sizeof cv_signals_returned);
 	hstep = 0;
+	harness_state_reset ();
 	last_alloc_failed = 0;
 	for (i = 0; i < MAXMU; i++) HS[i].writer = -1;
 	for (t = 0; t < MAXT; t++) { thread_tid[t] = -1; thread_done[t] = 0; thread_op[t] = 0; }
@@ -844,7 +884,7 @@ static void world_init (void) {
 		W.obj[i] = (refobj_t *) nsim_alloc (sizeof (refobj_t));
 		nsync_mu_init (&W.obj[i]->mu);
 	}
-	for (i = 0; i < MAXNOTE; i++) { NM[i].parent = -1; NM[i].dl_ns = -1; NM[i].notify_invoked = -1; NM[i].notify_returned = -1; NM[i].first_true_obs_return = -1; }
+	for (i = 0; i < MAXNOTE; i++) { NM[i].inh_invoked = -1; NM[i].inh_returned = -1; NM[i].inh_dl = -1; NM[i].parent = -1; NM[i].dl_ns = -1; NM[i].notify_invoked = -1; NM[i].notify_returned = -1; NM[i].first_true_obs_return = -1; }
 	for (i = 0; i < MAXCTR; i++) CM[i].zero_step = -1;
 	for (i = 0; i < S.nvar; i++) for (j = 0; j < 8; j++) { cargs_shared[i][j].mi = 0; cargs_shared[i][j].var = i; cargs_shared[i][j].k = j; }
 	/* users per note */
